@@ -1,0 +1,56 @@
+//go:build verif
+
+// Contracts for package accounts, read by /verif/gvc (comment-only file; it
+// declares nothing and is compiled only with -tags verif).
+package accounts
+
+// ---- C05: every exposed RPC is mediated --------------------------------------------
+// Vocabulary (spec/auth.smt2): vUser/vErr name the outcome of Authenticate.Validate,
+// eErr the outcome of Access.Enforce, hres0/hres1 what the wrapped handler returns.
+// exposedUnary / exposedServerStream / exposedClientStream / reqtype / reqgraph come
+// from the generated service descriptors (extracted on every run): reqgraph(req) is
+// the Graph field of the request message when its type has one, else "*".
+//
+// Mediation is the PRECONDITION of the handler parameter: every call of the handler
+// must be preceded by a successful Validate and a successful Enforce for that user,
+// the request's graph and the method's operation class.
+
+//@ func getUnaryRequestGraph
+//@   property C05
+//@   option prelude=auth
+//@   option load=gripql
+//@   nopanic
+//@   pure
+//@   requires info: info != nil
+//@   requires exposed: exposedUnary(info.FullMethod)
+//@   requires typed: isAPtr(req) && atype(req) == reqtype(info.FullMethod) && ref(req) != 0
+//@   ensures known: result.1 == nil
+//@   ensures graph: result.0 == reqgraph(req)
+
+//@ extern param:accounts::unaryAuthInterceptor$1:handler
+//@   params hctx hreq
+//@   pure
+//@   requires authenticated: vErr(auth, metaData) == nil
+//@   requires authorised: has(MethodMap, info.FullMethod) &&
+//@       eErr(access, vUser(auth, metaData), reqgraph(req), MethodMap[info.FullMethod]) == nil
+//@   requires sameRequest: hreq == req
+//@   ensures res: result.0 == hres0(handler, hctx, hreq) && result.1 == hres1(handler, hctx, hreq)
+
+//@ func unaryAuthInterceptor$1
+//@   property C05
+//@   option prelude=auth
+//@   option load=gripql
+//@   option globals=accounts
+//@   nopanic
+//@   requires info: info != nil
+//@   requires collab: auth != nil && access != nil
+//@   requires exposed: exposedUnary(info.FullMethod)
+//@   requires typed: isAPtr(req) && atype(req) == reqtype(info.FullMethod) && ref(req) != 0
+//@   ensures unauthenticated: vErr(auth, metaData) != nil ==>
+//@       result.0 == nil && result.1 != nil && codeOf(result.1) == codes.Unauthenticated
+//@   ensures denied: vErr(auth, metaData) == nil &&
+//@       eErr(access, vUser(auth, metaData), reqgraph(req), old(MethodMap)[info.FullMethod]) != nil ==>
+//@       result.0 == nil && result.1 != nil && codeOf(result.1) == codes.PermissionDenied
+//@   ensures callable: vErr(auth, metaData) == nil &&
+//@       eErr(access, vUser(auth, metaData), reqgraph(req), old(MethodMap)[info.FullMethod]) == nil ==>
+//@       result.0 == hres0(handler, ctx, req) && result.1 == hres1(handler, ctx, req)
